@@ -67,7 +67,7 @@ class RepoBuild:
     the scratch directory.  `sanitize=True` builds with ASan+UBSan.
     """
 
-    def __init__(self, name="repo", sanitize=False, targets=("it",), home=None):
+    def __init__(self, name="repo", sanitize=False, targets=("it",), home=None, conf=None):
         self.dir = os.path.join(scratch(), name)
         self.home = home or os.path.join(scratch(), name + ".home")
         os.makedirs(self.dir)
@@ -83,6 +83,8 @@ class RepoBuild:
         q.wait()
         p.wait()
         self._set_first_line("conf-qmail", self.home)
+        for cf, val in (conf or {}).items():          # e.g. {"conf-spawn": "255"}: a build-time configuration of the repo
+            self._set_first_line(cf, val)
         cc = open(os.path.join(self.dir, "conf-cc")).read().split("\n")
         ld = open(os.path.join(self.dir, "conf-ld")).read().split("\n")
         if sanitize:
